@@ -20,6 +20,7 @@ type bfsCheck struct {
 	bounds     func(tier string) map[string]interface{}
 	minClasses int // vacuity guard: at least this many distinct outcome classes must be seen
 	propFilter string // when set, only violations whose signature starts with "<prop>:" are this check's; others are printed as notes
+	variants   []string // further configurations searched by the same check; spec receives "<tier>/<variant>"
 }
 
 func registerBFS(b bfsCheck) {
@@ -34,56 +35,64 @@ func registerBFS(b bfsCheck) {
 
 func runBFS(b bfsCheck, tier string) int {
 	r := ev.Start(b.id, tier, "model_checking")
-	spec := b.spec(tier)
-	spec.WorkerArgs = []string{"worker", b.id, tier}
-	res, err := bfs.Run(spec)
-	if err != nil {
-		fmt.Printf("HARNESS-ERROR: %s: %v\n", b.id, err)
-		return 2
-	}
-	for k, v := range res.Classes {
-		for i := int64(0); i < v; i++ {
-			r.Outcome(k)
-			break
+	var states, trans, traces int64
+	exhaustive := true
+	for _, variant := range append([]string{""}, b.variants...) {
+		vt, pfx := tier, ""
+		if variant != "" {
+			vt, pfx = tier+"/"+variant, variant+": "
 		}
-		r.Outcomes[k] = v
-	}
-	if len(res.Classes) < b.minClasses {
-		fmt.Printf("HARNESS-ERROR: %s: vacuous exploration, only %d outcome classes (need %d)\n", b.id, len(res.Classes), b.minClasses)
-		return 2
-	}
-	for _, s := range res.Samples {
-		r.Sample(s)
-	}
-	r.Count("max_depth", int64(res.MaxDepth))
-	for d, n := range res.PerDepth {
-		r.Count(fmt.Sprintf("frontier_depth_%d", d), n)
-	}
-	if !res.Exhaustive {
-		r.Incomplete(res.Incomplete)
-	}
-	// confirm each violation by plain replays before believing it
-	for _, f := range res.Violations {
-		if b.propFilter != "" && !strings.HasPrefix(f.Sig, b.propFilter+":") {
-			fmt.Printf("NOTE: while checking %s a monitor of another property fired (reported by that property's own check): %s -- %s\n", b.id, f.Sig, f.Detail)
-			r.Note("other-property monitor fired: " + f.Sig)
-			continue
-		}
-		same := 0
-		for i := 0; i < 3; i++ {
-			if replayHas(spec, f.History, f.Sig) {
-				same++
-			}
-		}
-		if same != 3 {
-			fmt.Printf("HARNESS-ERROR: %s: violation %q not reproducible by plain replay (%d/3) history=%v\n", b.id, f.Sig, same, f.History)
+		spec := b.spec(vt)
+		spec.WorkerArgs = []string{"worker", b.id, vt}
+		res, err := bfs.Run(spec)
+		if err != nil {
+			fmt.Printf("HARNESS-ERROR: %s: %v\n", b.id, err)
 			return 2
 		}
-		r.Violation(f.Sig, f.Detail, map[string]interface{}{"engine": "bfs", "check": b.id, "tier": tier, "history": f.History})
+		for k, v := range res.Classes {
+			r.Outcomes[pfx+k] = v
+		}
+		if len(res.Classes) < b.minClasses {
+			fmt.Printf("HARNESS-ERROR: %s: vacuous exploration, only %d outcome classes (need %d)\n", b.id, len(res.Classes), b.minClasses)
+			return 2
+		}
+		for _, s := range res.Samples {
+			r.Sample(s)
+		}
+		r.Count(pfx+"max_depth", int64(res.MaxDepth))
+		for d, n := range res.PerDepth {
+			r.Count(fmt.Sprintf("%sfrontier_depth_%d", pfx, d), n)
+		}
+		if !res.Exhaustive {
+			exhaustive = false
+			r.Incomplete(pfx + res.Incomplete)
+		}
+		states += res.States
+		trans += res.Transitions
+		traces += res.Traces
+		// confirm each violation by plain replays before believing it
+		for _, f := range res.Violations {
+			if b.propFilter != "" && !strings.HasPrefix(f.Sig, b.propFilter+":") {
+				fmt.Printf("NOTE: while checking %s a monitor of another property fired (reported by that property's own check): %s -- %s\n", b.id, f.Sig, f.Detail)
+				r.Note("other-property monitor fired: " + f.Sig)
+				continue
+			}
+			same := 0
+			for i := 0; i < 3; i++ {
+				if replayHas(spec, f.History, f.Sig) {
+					same++
+				}
+			}
+			if same != 3 {
+				fmt.Printf("HARNESS-ERROR: %s: violation %q not reproducible by plain replay (%d/3) history=%v\n", b.id, f.Sig, same, f.History)
+				return 2
+			}
+			r.Violation(f.Sig, f.Detail, map[string]interface{}{"engine": "bfs", "check": b.id, "tier": vt, "history": f.History})
+		}
 	}
 	return r.Finish(ev.Coverage{
-		States: res.States, Transitions: res.Transitions, Traces: res.Traces,
-		Rule: b.rule, Exhaustive: res.Exhaustive, Bounds: b.bounds(tier), Assumptions: b.assume,
+		States: states, Transitions: trans, Traces: traces,
+		Rule: b.rule, Exhaustive: exhaustive, Bounds: b.bounds(tier), Assumptions: b.assume,
 	})
 }
 
